@@ -553,7 +553,13 @@ def run_check(prop_id, tier, seed):
     samples = []
     for part in parts:
         for s in merged[part.name]['samples'][:4]:
-            samples.append({'part': part.name, 'case': _clip(s, 400)})
+            entry = {'part': part.name, 'case': _clip(s, 400)}
+            if hasattr(part, 'describe'):
+                try:
+                    entry['shown_as'] = _clip(part.describe(s), 700)      # e.g. the Markdown a choice tape decodes to
+                except Exception as exc:
+                    entry['shown_as'] = 'describe failed: %r' % (exc,)
+            samples.append(entry)
     coverage = {
         'evaluations': total_eval + regress,
         'distinct_nontrivial': len(all_nt),
